@@ -1,12 +1,229 @@
 import FatVerif.Model.Util
 import FatVerif.Model.Basic
-/-! pure-probe driver for suite `Cursor` — STUB, to be replaced (see /verif/ARCH.md). -/
+import FatVerif.Model.AFile
+import FatVerif.Spec.ByteFile
+/-!
+pure-probe driver for suite `cursor` (property C02).
+
+```
+P cursor.hist  cs=<n> fat=<12|16|32> free=<n> <op;op;…>            => <res;res;…>
+P cursor.multi cs=<n> fat=<12|16|32> free=<n> files=<k> <i:op;i:op;…> => <res;res;…>
+```
+
+ops: `r<n>` one `read` call with an `n`-byte buffer · `R<n>` `read_exact` · `w<data>` one `write` call · `W<data>`
+`write_all` · `ss<n>` / `sc<int>` / `se<int>` seek from start / current / end · `t` truncate · `f` flush ·
+`x` reopen (drop the handle, read the whole file back through a temporary handle, `open_file` again).
+`<data>` is hex (`-` = empty) or `*<n>*<seed>`: the `n` bytes `patternByte seed i`.
+
+results: bytes are hex (`-` = empty) when at most 32 bytes, else `#<len>.<fnv1a-64 of the bytes, hex>`; a write gives
+the count; a seek the new position; `t`/`f`/`W` give `ok`; `x` gives `=<bytes>`; an error is `E<code>`, for the loops
+`R`/`W` `E<code>@<position afterwards>`; a panic is `E100` and ends the history.
+
+`free` is the number of free clusters of the volume once the files exist; the model's allocator fails exactly when
+that many clusters are in use.
+-/
 namespace FatVerif.CursorDriver
+open FatVerif.Util FatVerif.Cursor
 
-def handle (_fn : String) (_args : List String) : Option String := none
+def patternByte (seed i : Nat) : Nat :=
+  (seed + i + i / 256 * 37 + i / 65536 * 101) % 256
 
-def oracle (_fn : String) (_args : List String) (_implOut : List String) : Option String := none
+def fnv1a (bs : List Nat) : UInt64 :=
+  bs.foldl (fun h b => (h ^^^ UInt64.ofNat b) * 0x100000001b3) 0xcbf29ce484222325
 
-def branch (_fn : String) (_args : List String) : String := "-"
+def hex64 (h : UInt64) : String :=
+  String.ofList ((List.range 16).map fun i => hexDigit ((h.toNat >>> (4 * (15 - i))) % 16))
+
+/-- result token for a byte string -/
+def bytesTok (bs : List Nat) : String :=
+  if bs.length ≤ 32 then hexOfBytes bs else s!"#{bs.length}.{hex64 (fnv1a bs)}"
+
+def parseData (s : String) : Option (List Nat) :=
+  if s.startsWith "*" then
+    match s.splitOn "*" with
+    | [_, n, seed] =>
+      match n.toNat?, seed.toNat? with
+      | some n, some seed => some ((List.range n).map (patternByte seed))
+      | _, _ => none
+    | _ => none
+  else bytesOfHex s
+
+def dropStr (s : String) (n : Nat) : String := String.ofList (s.toList.drop n)
+
+def parseOp (s : String) : Option FileOp :=
+  match s.toList with
+  | ['t'] => some .truncate
+  | ['f'] => some .flush
+  | ['x'] => some .reopen
+  | 'r' :: _ => (dropStr s 1).toNat?.map .read
+  | 'R' :: _ => (dropStr s 1).toNat?.map .readExact
+  | 'w' :: _ => (parseData (dropStr s 1)).map .write
+  | 'W' :: _ => (parseData (dropStr s 1)).map .writeAll
+  | 's' :: 's' :: _ => (dropStr s 2).toNat?.map fun n => .seek (.start n)
+  | 's' :: 'c' :: _ => (dropStr s 2).toInt?.map fun d => .seek (.current d)
+  | 's' :: 'e' :: _ => (dropStr s 2).toInt?.map fun d => .seek (.fromEnd d)
+  | _ => none
+
+/-- `i:op` -/
+def parseIdxOp (s : String) : Option (Nat × FileOp) :=
+  match s.splitOn ":" with
+  | [i, o] =>
+    match i.toNat?, parseOp o with
+    | some i, some o => some (i, o)
+    | _, _ => none
+  | _ => none
+
+def resTok (op : FileOp) : FileRes → String
+  | .bytes l => (if op = .reopen then "=" else "") ++ bytesTok l
+  | .count n => toString n
+  | .pos n => toString n
+  | .unit => "ok"
+  | .err e => s!"E{e.code}"
+  | .errAt e p => s!"E{e.code}@{p}"
+
+def isPanic : FileRes → Bool
+  | .err .panic => true
+  | .errAt .panic _ => true
+  | _ => false
+
+/-! ### the model side -/
+
+def setAt {α : Type} (l : List α) (i : Nat) (v : α) : List α := l.set i v
+
+/-- run a history of `(file index, op)` on `k` model files sharing one allocator; stops after a panic -/
+def runModel : List (Nat × FileOp) → List AFile → CounterAlloc → List String → List String
+  | [], _, _, acc => acc.reverse
+  | (i, op) :: rest, files, s, acc =>
+    match files[i]? with
+    | none => (("?" :: acc).reverse)
+    | some f =>
+      let r := AFile.step counterAllocator op f s
+      if isPanic r.1 then ((resTok op r.1) :: acc).reverse
+      else runModel rest (files.set i r.2.1) r.2.2 (resTok op r.1 :: acc)
+
+def freshFiles (cs k : Nat) : List AFile :=
+  (List.range k).map fun _ => AFile.empty cs (fun _ _ => 0) 0
+
+structure Line where
+  cs : Nat
+  free : Nat
+  files : Nat
+  ops : List (Nat × FileOp)
+
+def parseLine (fn : String) (args : List String) : Option Line := do
+  let cs ← (kv args "cs").bind natOf
+  let free ← (kv args "free").bind natOf
+  let opsTok ← args.getLast?
+  if cs = 0 then none
+  if fn = "cursor.hist" then
+    let ops ← (opsTok.splitOn ";").mapM parseOp
+    some { cs := cs, free := free, files := 1, ops := ops.map fun o => (0, o) }
+  else if fn = "cursor.multi" then
+    let k ← (kv args "files").bind natOf
+    let ops ← (opsTok.splitOn ";").mapM parseIdxOp
+    some { cs := cs, free := free, files := k, ops := ops }
+  else none
+
+def handle (fn : String) (args : List String) : Option String :=
+  if fn = "cursor.hist" ∨ fn = "cursor.multi" then
+    match parseLine fn args with
+    | none => some "?parse"
+    | some ln =>
+      some (";".intercalate (runModel ln.ops (freshFiles ln.cs ln.files) { next := 2, free := ln.free } []))
+  else none
+
+/-! ### the oracle: the implementation's outputs against `ByteFile` alone -/
+
+/-- decode a bytes token.  A hashed token carries only its length; it is decoded to the true bytes if they hash to
+    it, else to a list of that length that is certainly different. -/
+def decodeBytes (tok : String) (truth : Nat → List Nat) : Option (List Nat) :=
+  if tok.startsWith "#" then
+    match (dropStr tok 1).splitOn "." with
+    | [n, _] =>
+      match n.toNat? with
+      | some n =>
+        let c := truth n
+        if c.length = n ∧ bytesTok c = tok then some c else some (List.replicate n 256)
+      | none => none
+    | _ => none
+  else bytesOfHex tok
+
+def parseErr (tok : String) : Option FileRes :=
+  match (dropStr tok 1).splitOn "@" with
+  | [c] => c.toNat?.map fun c => FileRes.err (errOf c)
+  | [c, p] =>
+    match c.toNat?, p.toNat? with
+    | some c, some p => some (FileRes.errAt (errOf c) p)
+    | _, _ => none
+  | _ => none
+where
+  errOf (c : Nat) : Err :=
+    match c with
+    | 2 => .eof | 3 => .writeZero | 4 => .invalidInput | 5 => .notFound | 6 => .alreadyExists
+    | 7 => .dirNotEmpty | 8 => .corrupted | 9 => .noSpace | 10 => .nameLen | 11 => .nameChar
+    | 100 => .panic | 101 => .hang | _ => .io 0
+
+def parseRes (op : FileOp) (tok : String) (b : ByteFile) : Option FileRes :=
+  if tok.startsWith "E" then parseErr tok
+  else
+    match op with
+    | .read _ | .readExact _ => (decodeBytes tok fun n => (b.read n).1).map .bytes
+    | .write _ => tok.toNat?.map .count
+    | .seek _ => tok.toNat?.map .pos
+    | .writeAll _ | .truncate | .flush => if tok = "ok" then some .unit else none
+    | .reopen =>
+      if tok.startsWith "=" then
+        (decodeBytes (dropStr tok 1) fun n => if b.content.length = n then b.content else List.replicate n 256).map
+          .bytes
+      else none
+
+/-- per file: the specification state and whether a truncate happened since the content was last checked -/
+structure OState where
+  b : ByteFile
+  truncated : Bool
+
+def signature (st : OState) (sig : String) : String :=
+  if sig = "content" then (if st.truncated then "truncate-content" else "read-wrong-bytes") else sig
+
+def runOracle (cs : Nat) : List (Nat × FileOp) → List String → List OState → Nat → Option String
+  | [], [], _, _ => none
+  | [], _ :: _, _, k => some s!"C02 result-shape extra-results-at-{k}"
+  | _ :: _, [], _, k => some s!"C02 result-shape missing-results-at-{k}"
+  | (i, op) :: ops, tok :: toks, sts, k =>
+    match sts[i]? with
+    | none => some s!"C02 result-shape bad-file-index-at-{k}"
+    | some st =>
+      match parseRes op tok st.b with
+      | none => some s!"C02 result-shape unparsable-at-{k}"
+      | some res =>
+        if isPanic res then some s!"C02 panic op-{k}"
+        else
+          match ByteFile.check cs op res st.b with
+          | .error sig => some s!"C02 {signature st sig} op-{k}"
+          | .ok b' =>
+            let tr := match op with
+              | .truncate => true
+              | .reopen => false
+              | _ => st.truncated
+            runOracle cs ops toks (sts.set i { b := b', truncated := tr }) (k + 1)
+
+def oracle (fn : String) (args : List String) (implOut : List String) : Option String :=
+  if fn = "cursor.hist" ∨ fn = "cursor.multi" then
+    match parseLine fn args, implOut with
+    | some ln, [out] =>
+      runOracle ln.cs ln.ops (out.splitOn ";")
+        ((List.range ln.files).map fun _ => { b := { content := [], pos := 0 }, truncated := false }) 0
+    | _, _ => some "C02 result-shape unparsable-line"
+  else none
+
+def hasOp (ops : List (Nat × FileOp)) (p : FileOp → Bool) : Bool := ops.any fun o => p o.2
+
+def branch (fn : String) (args : List String) : String :=
+  match parseLine fn args with
+  | none => "?"
+  | some ln =>
+    let fat := (kv args "fat").getD "?"
+    let tiny := if ln.free < 64 then "/tiny" else ""
+    s!"cs{ln.cs}/fat{fat}{tiny}"
 
 end FatVerif.CursorDriver
